@@ -275,11 +275,14 @@ func (p *Process) getBackoff() time.Duration {
 }
 
 func (p *Process) getProcessEnvironment() []string {
-	env := []string{
-		"PC_PROC_NAME=" + p.procConf.Name,
-		EnvReplicaNum + "=" + strconv.Itoa(p.procConf.ReplicaNum),
-	}
-	env = append(env, os.Environ()...)
+	// the injected variables come after the inherited environment: exec uses the
+	// last value of a duplicate key, and an inherited PC_PROC_NAME / PC_REPLICA_NUM
+	// (process-compose started by process-compose) must not shadow them
+	env := append([]string{}, os.Environ()...)
+	env = append(env,
+		"PC_PROC_NAME="+p.procConf.Name,
+		EnvReplicaNum+"="+strconv.Itoa(p.procConf.ReplicaNum),
+	)
 	env = append(env, p.globalEnv...)
 	env = append(env, p.procConf.Environment...)
 	return env
